@@ -193,5 +193,57 @@ def level2():
     return out
 
 
+# level 3: data borrowed from a *value* (removal handle, drained element, lazy clone, wrapper)
+# through every borrowing accessor, checked and unchecked, against uses that end or alias the value.
+# (kind, producer statements yielding `h`, has mutable accessors, needs Cloneable)
+L3_KINDS = [
+    ("pop_handle", ["let mut h = v.pop().unwrap();"], True, False),
+    ("remove_handle", ["let mut h = v.remove(0);"], True, False),
+    ("swap_remove_handle", ["let mut h = v.swap_remove(0);"], True, False),
+    ("drained_element", ["let mut d = v.drain(..);", "let mut h = d.next().unwrap();"], True, False),
+    ("lazy_clone", ["let e = v.at(0);", "let mut h = e.lazy_clone();"], False, True),
+    ("wrapper", ["let mut h = w(\"q\");"], True, False),
+]
+# (accessor, statement binding `a`, use of `a`, mutable)
+L3_ACCESSORS = [
+    ("downcast_ref", "let a: &String = h.downcast_ref::<String>().unwrap();", "use_ref(a);", False),
+    ("downcast_ref_unchecked", "let a: &String = unsafe { h.downcast_ref_unchecked::<String>() };", "use_ref(a);", False),
+    ("as_bytes", "let a: &[u8] = h.as_bytes();", "use_ref(a);", False),
+    ("downcast_mut", "let a: &mut String = h.downcast_mut::<String>().unwrap();", "use_mut(a);", True),
+    ("downcast_mut_unchecked", "let a: &mut String = unsafe { h.downcast_mut_unchecked::<String>() };", "use_mut(a);", True),
+    ("as_bytes_mut", "let a: &mut [u8] = h.as_bytes_mut();", "use_mut(a);", True),
+]
+L3_CONFLICTS = [
+    ("drop_value", ["drop(h);"]),
+    ("move_value", ["let h2 = h;"]),
+    ("consume_value", ["let s = h.downcast::<String>();"]),
+]
+
+
+def level3():
+    out = []
+    for vname, mk, cloneable in (VARIANTS[0], VARIANTS[3]):
+        for kname, prod, has_mut, needs_c in L3_KINDS:
+            if needs_c and not cloneable:
+                continue
+            for aname, bind, use, is_mut in L3_ACCESSORS:
+                if is_mut and not has_mut:
+                    continue
+                base = "L3/%s/%s/%s" % (vname, kname, aname)
+                ctl = Probe(base + "/control", ["let mut v = %s();" % mk] + prod + [bind, use], "accept", "control")
+                out.append(ctl)
+                for cname, stmts in L3_CONFLICTS:
+                    body = ["let mut v = %s();" % mk] + prod + [bind] + stmts + [use]
+                    out.append(Probe("%s/%s" % (base, cname), body, "reject", "L3:%s" % cname, control_of=ctl.name))
+                # the borrow outlives the value
+                body = ["let mut v = %s();" % mk, "let a;", "{"] + ["    " + x for x in prod] + ["    " + bind.replace("let a:", "let b:"), "    a = b;", "}", use]
+                out.append(Probe(base + "/escape_scope", body, "reject", "L3:escape_scope", control_of=ctl.name))
+                # a second, aliasing mutable borrow
+                if has_mut:
+                    body = ["let mut v = %s();" % mk] + prod + [bind, "let z: &mut String = h.downcast_mut::<String>().unwrap();", "use_mut(z);", use]
+                    out.append(Probe(base + "/second_mutable_borrow", body, "reject", "L3:second_mutable_borrow", control_of=ctl.name))
+    return out
+
+
 def generate():
-    return level1() + level2()
+    return level1() + level2() + level3()
